@@ -225,7 +225,8 @@ open World
 @[noleak] theorem getCell_noLeak (w : World) (o : Nat) : NoLeak (w.getCell o) := by
   unfold World.getCell; noleak
 
-@[noleak] theorem primStart_noLeak (w : World) (x : Nat) (p : Prim) : NoLeak (w.primStart x p) := by
+@[noleak] theorem primStart_noLeak (w : World) (x : Nat) (p : Prim) (next : Nat) :
+    NoLeak (w.primStart x p next) := by
   unfold World.primStart; noleak
 
 @[noleak] theorem primEffect_noLeak (w : World) (x : Nat) (p : Prim) : NoLeak (w.primEffect x p) := by
@@ -287,6 +288,26 @@ open World
 
 @[noleak] theorem threadDone_noLeak (w : World) : NoLeak w.threadDone := by
   unfold World.threadDone; noleak
+
+@[noleak] theorem lazyGet_noLeak (w : World) (z : Nat) : NoLeak (w.lazyGet z) := by
+  unfold World.lazyGet; noleak
+
+@[noleak] theorem wakerClone_noLeak (w : World) (a : Nat) : NoLeak (w.wakerClone a) := by
+  unfold World.wakerClone; noleak
+
+@[noleak] theorem wakerDrop_noLeak (w : World) (a : Nat) : NoLeak (w.wakerDrop a) := by
+  unfold World.wakerDrop; noleak
+
+@[noleak] theorem blockOnStage_noLeak (w : World) (c : TCtl) (f mode : Nat) :
+    NoLeak (w.blockOnStage c f mode) := by
+  unfold World.blockOnStage; noleak
+
+@[noleak] theorem wakeStage_noLeak (w : World) (c : TCtl) (f : Nat) (b : Bool) :
+    NoLeak (w.wakeStage c f b) := by
+  unfold World.wakeStage; noleak
+
+@[noleak] theorem finishThread_noLeak (w : World) (c : TCtl) : NoLeak (w.finishThread c) := by
+  unfold World.finishThread; noleak
 
 @[noleak] theorem runEpilogue_noLeak (w : World) (c : TCtl) : NoLeak (w.runEpilogue c) := by
   unfold World.runEpilogue; noleak
